@@ -1,20 +1,18 @@
 /-
 C12 — Patterns, destructuring, switch and runtime type annotations: property theorems.
+(Helper lemmas live in `Lemmas/C12.lean`; the annotation invariant in `Theorems/C12Invariant.lean`;
+the operator patterns as constructor inverses in `Theorems/C12Inverse.lean`.)
 
-Layout
   §1  types: `v is type(v)`, `v is anything`, `is_type` = the classification `HasType`
-  §2  no Rust panic is reachable in `assign` and its helpers
   §3  `assign_all`'s pre-pass and drain arithmetic = the declarative arrangement (`arrange_eq_spec`)
-  §4  `assign` refines the transactional reference `specAssign` (for patterns whose `or` alternatives
-      bind nothing in their first branch; the general statement is refuted by the code, see §7)
-  §5  the relational matcher: `specAssign` in declaring contexts = `Matches` + `declareAll`
-  §6  `switch` runs the first arm that matches
-  §7  the recorded defect: `or` does not roll back
-  §8  operator patterns invert their constructors
-  §9  the annotation invariant over statement histories
+  §4  `assign` refines the transactional reference `specAssign` (`assign_ref`, `assign_eq_spec`) for
+      patterns whose `or` alternatives bind nothing in their first branch; `assign` never panics,
+      for every pattern (`assign_no_panic`)
+  §6  `switch` runs the first arm that matches (`switch_first_match`), `catch`, lambda parameters
+  §7  the recorded defect: `or` does not roll back — the unrestricted statement is refuted
+  §10 statements that are defined in the Spec but not proved yet (`…_statement`)
 -/
-import NoulithModel.Spec.Match
-import NoulithModel.Spec.TypedStore
+import NoulithModel.Lemmas.C12
 
 namespace Noulith.C12
 
@@ -33,450 +31,6 @@ theorem isType_eq_specIs (T : Ty) (v : Val) : isType T v = specIs v T := by
 
 theorem specIs_iff_HasType (T : Ty) (v : Val) : specIs v T = .ok true ↔ HasType v T := by
   cases T <;> cases v <;> simp [specIs, HasType, typeOf] <;> exact eq_comm
-
-/-! ## §2 no panic (helpers) -/
-
-theorem predEval_no_panic (p : Nat) (v : Val) : predEval p v ≠ .panic := by
-  unfold predEval
-  split
-  · split
-    · split <;> (try split) <;> simp
-    · simp
-  · split <;> simp
-  · simp
-  · simp
-  · simp
-  · simp
-  · simp
-  · simp
-
-theorem isType_no_panic (T : Ty) (v : Val) : isType T v ≠ .panic := by
-  cases T <;> cases v <;> simp [isType, predEval_no_panic]
-
-theorem Out.map_ne_panic {α β} (f : α → β) (x : Out α) (h : x ≠ .panic) : x.map f ≠ .panic := by
-  cases x <;> simp_all [Out.map]
-
-theorem setIndex_no_panic (lhs : Val) (ixs : List Val) (value : Option Val) :
-    setIndex lhs ixs value ≠ .panic := by
-  induction ixs generalizing lhs with
-  | nil => simp [setIndex]
-  | cons i rest ih =>
-    unfold setIndex
-    split
-    · split
-      · split
-        · exact Out.map_ne_panic _ _ (ih _)
-        · simp
-      · simp
-    · split
-      · split
-        · exact Out.map_ne_panic _ _ (ih _)
-        · simp
-      · simp
-    · split
-      · simp
-      · split
-        · split <;> simp
-        · split
-          · split
-            · exact Out.map_ne_panic _ _ (ih _)
-            · simp
-          · simp
-    · split
-      · simp
-      · split
-        · simp
-        · split
-          · split <;> simp
-          · simp
-        · simp
-    · simp
-
-theorem insert_no_panic (e : Env) (x : Nat) (T : Ty) (v : Val) : (e.insert x T v).2 ≠ .panic := by
-  unfold Env.insert
-  split
-  · simp
-  · split <;> simp
-
-theorem insertDeclare_no_panic (e : Env) (x : Nat) (T : Ty) (v : Val) :
-    (insertDeclare e x T v).2 ≠ .panic := by
-  unfold insertDeclare
-  split
-  · exact insert_no_panic _ _ _ _
-  · simp
-  · simp
-  · next h => exact absurd h (isType_no_panic _ _)
-
-theorem assignRespectingType_no_panic (e : Env) (x : Nat) (ixs : List Val) (v : Val) :
-    (assignRespectingType e x ixs v).2 ≠ .panic := by
-  unfold assignRespectingType
-  split
-  · simp
-  · split
-    · split
-      · simp
-      · simp
-      · simp
-      · next h => exact absurd h (isType_no_panic _ _)
-    · split
-      · split
-        · simp
-        · simp
-        · simp
-        · next h => exact absurd h (isType_no_panic _ _)
-      · simp
-      · next h => exact absurd h (setIndex_no_panic _ _ _)
-
-/-! ## §3 the arrangement -/
-
-def nSplat : List Pat → Nat
-  | [] => 0
-  | p :: ps => (if isSplatItem p then 1 else 0) + nSplat ps
-
-/-- defaults in play: `withDefault` items whose non-splat index (counted from `s`) is `≥ k` -/
-def inPlayP (k : Nat) : List Pat → Nat → List Val
-  | [], _ => []
-  | p :: ps, s =>
-    if isSplatItem p then inPlayP k ps s
-    else (match p with
-          | .withDefault _ d => if k ≤ s then [d] else []
-          | _ => []) ++ inPlayP k ps (s + 1)
-
-/-- a non-default, non-splat item follows a default in play -/
-def violP (k : Nat) : List Pat → Nat → Bool → Bool
-  | [], _, _ => false
-  | p :: ps, s, started =>
-    if isSplatItem p then violP k ps s started
-    else match p with
-      | .withDefault _ _ => violP k ps (s + 1) (started || decide (k ≤ s))
-      | _ => started || violP k ps (s + 1) started
-
-def firstSplat : List Pat → Nat → Option Nat
-  | [], _ => none
-  | p :: ps, i => if isSplatItem p then some i else firstSplat ps (i + 1)
-
-def prePassSpec (k : Nat) (ps : List Pat) (s : Nat) (i : Nat) (splat : Option Nat) (defs : List Val) : Out PrePass :=
-  if (splat.isSome && decide (nSplat ps ≥ 1)) || decide (nSplat ps ≥ 2) || violP k ps s (!defs.isEmpty) then .throw
-  else .ok { splat := match splat with | some x => some x | none => firstSplat ps i, defaults := defs ++ inPlayP k ps s }
-
-theorem prePass_splat (k : Nat) (p : Pat) (ps : List Pat) (i : Nat) (splat : Option Nat) (defs : List Val)
-    (h : isSplatItem p = true) :
-    prePass k (p :: ps) i splat defs =
-      (match splat with
-       | some _ => .throw
-       | none => prePass k ps (i + 1) (some i) defs) := by
-  cases p <;> simp [isSplatItem] at h
-  · rename_i q t
-    cases q <;> simp [isSplatItem] at h
-    simp only [prePass]
-    cases splat <;> rfl
-  · simp only [prePass]
-    cases splat <;> rfl
-
-theorem prePass_default (k : Nat) (q : Pat) (d : Val) (ps : List Pat) (s i : Nat) (splat : Option Nat)
-    (defs : List Val) (hi : i = s + (if splat.isSome then 1 else 0)) :
-    prePass k (.withDefault q d :: ps) i splat defs =
-      (if k ≤ s then prePass k ps (i + 1) splat (defs ++ [d]) else prePass k ps (i + 1) splat defs) := by
-  simp only [prePass]
-  cases splat <;> simp at hi <;> subst hi <;> simp <;> omega
-
-theorem prePass_other (k : Nat) (p : Pat) (ps : List Pat) (i : Nat) (splat : Option Nat) (defs : List Val)
-    (h1 : isSplatItem p = false) (h2 : defaultOf p = none) :
-    prePass k (p :: ps) i splat defs =
-      (if !defs.isEmpty then .throw else prePass k ps (i + 1) splat defs) := by
-  cases p <;> simp [isSplatItem, defaultOf] at h1 h2 <;> try (simp only [prePass])
-  rename_i q t
-  cases q <;> simp [isSplatItem] at h1 <;> simp only [prePass]
-
-theorem prePass_eq (k : Nat) (ps : List Pat) : ∀ (s i : Nat) (splat : Option Nat) (defs : List Val),
-    i = s + (if splat.isSome then 1 else 0) →
-    prePass k ps i splat defs = prePassSpec k ps s i splat defs := by
-  induction ps with
-  | nil =>
-    intro s i splat defs _
-    simp [prePass, prePassSpec, nSplat, violP, inPlayP, firstSplat]
-    cases splat <;> rfl
-  | cons p ps ih =>
-    intro s i splat defs hi
-    by_cases hsp : isSplatItem p = true
-    · rw [prePass_splat k p ps i splat defs hsp]
-      cases splat with
-      | some x => simp [prePassSpec, nSplat, hsp]
-      | none =>
-        simp at hi
-        subst hi
-        rw [ih i (i + 1) (some i) defs (by simp)]
-        simp only [prePassSpec, nSplat, violP, inPlayP, firstSplat, hsp, if_true]
-        have e1 : (decide (nSplat ps ≥ 1)) = decide (1 + nSplat ps ≥ 2) := by
-          apply decide_eq_decide.mpr; omega
-        by_cases h2 : nSplat ps ≥ 2
-        · have : nSplat ps ≥ 1 := by omega
-          simp [h2, this]
-          omega
-        · by_cases h1 : nSplat ps ≥ 1
-          · have : 1 + nSplat ps ≥ 2 := by omega
-            simp [h1, this]
-          · have : ¬ (1 + nSplat ps ≥ 2) := by omega
-            simp [h1, h2, this]
-    · have hsp' : isSplatItem p = false := by simpa using hsp
-      cases hd : defaultOf p with
-      | some d =>
-        obtain ⟨q, rfl⟩ : ∃ q, p = .withDefault q d := by
-          cases p <;> simp [defaultOf] at hd
-          subst hd
-          exact ⟨_, rfl⟩
-        rw [prePass_default k q d ps s i splat defs hi]
-        have hi' : i + 1 = (s + 1) + (if splat.isSome then 1 else 0) := by omega
-        by_cases hk : k ≤ s
-        · simp only [hk, if_true]
-          rw [ih (s + 1) (i + 1) splat (defs ++ [d]) hi']
-          have hne : (defs ++ [d]).isEmpty = false := by simp
-          simp [prePassSpec, nSplat, violP, inPlayP, firstSplat, isSplatItem, hk, hne]
-        · simp only [hk, if_false]
-          rw [ih (s + 1) (i + 1) splat defs hi']
-          simp [prePassSpec, nSplat, violP, inPlayP, firstSplat, isSplatItem, hk]
-      | none =>
-        rw [prePass_other k p ps i splat defs hsp' hd]
-        have hi' : i + 1 = (s + 1) + (if splat.isSome then 1 else 0) := by omega
-        have hv : violP k (p :: ps) s (!defs.isEmpty) = ((!defs.isEmpty) || violP k ps (s + 1) (!defs.isEmpty)) := by
-          simp only [violP, hsp']
-          cases p <;> simp [defaultOf] at hd <;> simp
-        have hin : inPlayP k (p :: ps) s = inPlayP k ps (s + 1) := by
-          simp only [inPlayP, hsp']
-          cases p <;> simp [defaultOf] at hd <;> simp
-        by_cases hde : defs.isEmpty = true
-        · simp only [hde, Bool.not_true]
-          rw [ih (s + 1) (i + 1) splat defs hi']
-          have hv' : violP k (p :: ps) s false = violP k ps (s + 1) false := by simpa [hde] using hv
-          simp [prePassSpec, hv', hin, nSplat, hsp', firstSplat, hde]
-        · simp only [prePassSpec, hv]
-          simp [hde]
-
-/-! bridging to the declarative description -/
-
-def NoSplatB (ps : List Pat) : Prop := ∀ p ∈ ps, isSplatItem p = false
-
-theorem inPlayP_length_le (k : Nat) (qs : List Pat) (s : Nat) : (inPlayP k qs s).length ≤ qs.length := by
-  induction qs generalizing s with
-  | nil => simp [inPlayP]
-  | cons q qs ih =>
-    unfold inPlayP
-    split
-    · have := ih s; simp; omega
-    · have := ih (s + 1)
-      cases q <;> simp <;> try omega
-      split <;> simp <;> omega
-
-/-- once a default is in play, everything that follows must be a default -/
-theorem started_lemma (k : Nat) (qs : List Pat) : ∀ s, k ≤ s → NoSplatB qs →
-    (match qs.mapM defaultOf with
-     | some ds => violP k qs s true = false ∧ inPlayP k qs s = ds
-     | none => violP k qs s true = true) := by
-  induction qs with
-  | nil => intro s _ _; simp [violP, inPlayP]
-  | cons q qs ih =>
-    intro s hk hns
-    have hq : isSplatItem q = false := hns q (by simp)
-    have hns' : NoSplatB qs := fun p hp => hns p (by simp [hp])
-    have ih' := ih (s + 1) (by omega) hns'
-    cases hd : defaultOf q with
-    | none =>
-      have : violP k (q :: qs) s true = true := by
-        simp only [violP, hq]
-        cases q <;> simp [defaultOf] at hd <;> simp
-      simp [List.mapM_cons, hd, this]
-    | some d =>
-      obtain ⟨q', rfl⟩ : ∃ q', q = .withDefault q' d := by
-        cases q <;> simp [defaultOf] at hd
-        subst hd; exact ⟨_, rfl⟩
-      simp only [List.mapM_cons, hd]
-      cases hm : qs.mapM defaultOf with
-      | none =>
-        simp only [hm] at ih'
-        simp [violP, isSplatItem, ih']
-      | some ds =>
-        simp only [hm] at ih'
-        simp [violP, inPlayP, isSplatItem, ih', hk]
-
-theorem fill_lemma (k : Nat) (qs : List Pat) : ∀ s, NoSplatB qs →
-    (match (qs.drop (k - s)).mapM defaultOf with
-     | some ds => violP k qs s false = false ∧ inPlayP k qs s = ds
-     | none => violP k qs s false = true ∨ (inPlayP k qs s).length + (k - s) < qs.length) := by
-  induction qs with
-  | nil => intro s _; simp [violP, inPlayP]
-  | cons q qs ih =>
-    intro s hns
-    have hq : isSplatItem q = false := hns q (by simp)
-    have hns' : NoSplatB qs := fun p hp => hns p (by simp [hp])
-    by_cases hk : k ≤ s
-    · have h0 : k - s = 0 := by omega
-      simp only [h0, List.drop_zero]
-      have st := started_lemma k qs (s + 1) (by omega) hns'
-      cases hd : defaultOf q with
-      | none =>
-        simp only [List.mapM_cons, hd]
-        right
-        have h1 : inPlayP k (q :: qs) s = inPlayP k qs (s + 1) := by
-          simp only [inPlayP, hq]
-          cases q <;> simp [defaultOf] at hd <;> simp
-        have := inPlayP_length_le k qs (s + 1)
-        simp [h1]; omega
-      | some d =>
-        obtain ⟨q', rfl⟩ : ∃ q', q = .withDefault q' d := by
-          cases q <;> simp [defaultOf] at hd
-          subst hd; exact ⟨_, rfl⟩
-        simp only [List.mapM_cons, hd]
-        cases hm : qs.mapM defaultOf with
-        | none =>
-          simp only [hm] at st
-          simp [violP, isSplatItem, st, hk]
-        | some ds =>
-          simp only [hm] at st
-          simp [violP, inPlayP, isSplatItem, st, hk]
-    · have h1 : k - s = (k - (s + 1)) + 1 := by omega
-      have ih' := ih (s + 1) hns'
-      rw [h1, List.drop_succ_cons]
-      have hv : violP k (q :: qs) s false = violP k qs (s + 1) false := by
-        simp only [violP, hq]
-        cases q <;> simp [hk]
-      have hin : inPlayP k (q :: qs) s = inPlayP k qs (s + 1) := by
-        simp only [inPlayP, hq]
-        cases q <;> simp [hk]
-      rw [hv, hin]
-      cases hm : (qs.drop (k - (s + 1))).mapM defaultOf with
-      | none =>
-        simp only [hm] at ih'
-        rcases ih' with h | h
-        · left; exact h
-        · right; simp; omega
-      | some ds =>
-        simp only [hm] at ih'
-        exact ih'
-
-theorem splatIdxs_length (ps : List Pat) : ∀ i, (splatIdxs ps i).length = nSplat ps := by
-  induction ps with
-  | nil => intro i; rfl
-  | cons p ps ih =>
-    intro i
-    unfold splatIdxs nSplat
-    by_cases h : isSplatItem p = true <;> simp [h, ih (i + 1)] <;> omega
-
-theorem splatIdxs_nil (ps : List Pat) : ∀ i, splatIdxs ps i = [] → NoSplatB ps ∧ firstSplat ps i = none := by
-  induction ps with
-  | nil => intro i _; exact ⟨fun p hp => (by cases hp), rfl⟩
-  | cons p ps ih =>
-    intro i h
-    unfold splatIdxs at h
-    by_cases hp : isSplatItem p = true
-    · simp [hp] at h
-    · simp [hp] at h
-      obtain ⟨h1, h2⟩ := ih (i + 1) h
-      refine ⟨?_, ?_⟩
-      · intro q hq
-        rcases List.mem_cons.mp hq with rfl | hq
-        · simpa using hp
-        · exact h1 q hq
-      · simp [firstSplat, hp, h2]
-
-theorem splatIdxs_single (k : Nat) (ps : List Pat) : ∀ i si, splatIdxs ps i = [si] →
-    ∃ j, si = i + j ∧ j < ps.length ∧ firstSplat ps i = some si ∧
-      NoSplatB (ps.take j ++ ps.drop (j + 1)) ∧
-      (∀ s, inPlayP k ps s = inPlayP k (ps.take j ++ ps.drop (j + 1)) s) ∧
-      (∀ s b, violP k ps s b = violP k (ps.take j ++ ps.drop (j + 1)) s b) := by
-  induction ps with
-  | nil => intro i si h; simp [splatIdxs] at h
-  | cons p ps ih =>
-    intro i si h
-    unfold splatIdxs at h
-    by_cases hp : isSplatItem p = true
-    · simp only [hp, if_true] at h
-      have h1 : i = si := by simpa using (List.cons.inj h).1
-      have h2 : splatIdxs ps (i + 1) = [] := (List.cons.inj h).2
-      obtain ⟨hns, _⟩ := splatIdxs_nil ps (i + 1) h2
-      refine ⟨0, by omega, by simp, by simp [firstSplat, hp, h1], ?_, ?_, ?_⟩
-      · simpa using hns
-      · intro s; simp [inPlayP, hp]
-      · intro s b; simp [violP, hp]
-    · simp only [hp] at h
-      have hp' : isSplatItem p = false := by simpa using hp
-      obtain ⟨j, hj1, hj2, hj3, hj4, hj5, hj6⟩ := ih (i + 1) si h
-      refine ⟨j + 1, by omega, by simp; omega, by simp [firstSplat, hp, hj3], ?_, ?_, ?_⟩
-      · intro q hq
-        simp only [List.take_succ_cons, List.drop_succ_cons, List.cons_append] at hq
-        rcases List.mem_cons.mp hq with rfl | hq
-        · exact hp'
-        · exact hj4 q hq
-      · intro s
-        simp only [List.take_succ_cons, List.drop_succ_cons, List.cons_append, inPlayP, hp', hj5]
-      · intro s b
-        simp only [List.take_succ_cons, List.drop_succ_cons, List.cons_append, violP, hp', hj6]
-
-def optToOut {α} : Option α → Out α
-  | some a => .ok a
-  | none => .throw
-
-theorem prePass_init (k : Nat) (ps : List Pat) :
-    prePass k ps 0 none [] =
-      if nSplat ps ≥ 2 ∨ violP k ps 0 false = true then .throw
-      else .ok { splat := firstSplat ps 0, defaults := inPlayP k ps 0 } := by
-  rw [prePass_eq k ps 0 0 none [] (by simp)]
-  simp [prePassSpec]
-
-theorem arrange_throw (lhs : List Pat) (k : Nat) (rhs : List Val)
-    (h : prePass k lhs 0 none [] = .throw) : arrange lhs k rhs = .throw := by
-  unfold arrange; rw [h]
-
-theorem arrange_noSplat (lhs : List Pat) (k : Nat) (rhs ds : List Val)
-    (h : prePass k lhs 0 none [] = .ok { splat := none, defaults := ds }) :
-    arrange lhs k rhs =
-      if lhs.length = k + ds.length ∧ lhs.length = (rhs ++ ds).length then .ok (rhs ++ ds) else .throw := by
-  unfold arrange; rw [h]
-  simp only []
-  by_cases h1 : lhs.length = k + ds.length
-  · by_cases h2 : lhs.length = (rhs ++ ds).length
-    · simp [h1, h2]
-    · simp [h1, h2]
-  · simp [h1]
-
-theorem arrange_splat (lhs : List Pat) (k : Nat) (rhs ds : List Val) (si : Nat)
-    (h : prePass k lhs 0 none [] = .ok { splat := some si, defaults := ds })
-    (hsi : si < lhs.length) :
-    arrange lhs k rhs =
-      let F := rhs ++ ds
-      if F.length + 1 < lhs.length then .throw
-      else
-        let nPost := lhs.length - (si + 1)
-        .ok (F.take si ++ Val.list ((F.drop si).take (F.length - si - nPost)) :: F.drop (F.length - nPost)) := by
-  unfold arrange; rw [h]
-  simp only []
-  generalize rhs ++ ds = F
-  by_cases h1 : F.length + 1 < lhs.length
-  · simp only [h1, if_true]
-  · simp only [h1, if_false]
-    have hF : lhs.length ≤ F.length + 1 := by omega
-    have e1 : ((F.length : Int) + (si : Int) + 1 - (lhs.length : Int)) = ((F.length + si + 1 - lhs.length : Nat) : Int) := by omega
-    rw [e1]
-    simp only [Int.toNat_natCast]
-    have c1 : ¬ (((F.length + si + 1 - lhs.length : Nat) : Int) < 0 ∨ ((F.length + si + 1 - lhs.length : Nat) : Int) > (F.length : Int)) := by omega
-    simp only [c1, if_false]
-    have c2 : ¬ (si > (List.take (F.length + si + 1 - lhs.length) F).length) := by
-      simp; omega
-    simp only [c2, if_false]
-    have c3 : ¬ ((List.take si (List.take (F.length + si + 1 - lhs.length) F)).length != si) = true := by
-      simp; omega
-    simp only [c3]
-    have c4 : ¬ ((List.drop (F.length + si + 1 - lhs.length) F).length != lhs.length - (si + 1)) = true := by
-      simp; omega
-    simp only [c4]
-    simp only [Bool.false_eq_true, if_false]
-    have t1 : List.take si (List.take (F.length + si + 1 - lhs.length) F) = List.take si F := by
-      rw [List.take_take]; congr 1; omega
-    have t2 : List.drop si (List.take (F.length + si + 1 - lhs.length) F)
-        = List.take (F.length - si - (lhs.length - (si + 1))) (List.drop si F) := by
-      rw [List.drop_take]; congr 1; omega
-    have t3 : F.length + si + 1 - lhs.length = F.length - (lhs.length - (si + 1)) := by omega
-    rw [t1, t2, t3]
-    simp
 
 theorem arrange_eq_spec (ps : List Pat) (items : List Val) :
     arrange ps items.length items = optToOut (specArrange ps items) := by
@@ -605,41 +159,6 @@ def orCleanL : List Pat → Bool
   | p :: ps => orClean p && orCleanL ps
 end
 
-def stepItems (r : Env × Out Unit) (k : Env → Env × Out Unit) : Env × Out Unit :=
-  match r with
-  | (e', .ok ()) => k e'
-  | r => r
-
-theorem assignItems_nil (e : Env) (rt : Option Ty) (vs : List Val) : assignItems e [] rt vs = (e, .ok ()) := by
-  cases vs <;> rfl
-
-theorem assignItems_cons_nil (e : Env) (p : Pat) (ps : List Pat) (rt : Option Ty) :
-    assignItems e (p :: ps) rt [] = (e, .throw) := rfl
-
-theorem assignItems_splat (e : Env) (inner : Pat) (ps : List Pat) (rt : Option Ty) (v : Val) (vs : List Val) :
-    assignItems e (.splat inner :: ps) rt (v :: vs) =
-      stepItems (assign e inner rt v) (fun e' => assignItems e' ps rt vs) := rfl
-
-theorem assignItems_annoSplat (e : Env) (inner : Pat) (ann : Option Val) (ps : List Pat) (rt : Option Ty) (v : Val) (vs : List Val) :
-    assignItems e (.anno (.splat inner) ann :: ps) rt (v :: vs) =
-      stepItems (match ann with
-         | none => assign e inner (some .any) v
-         | some t =>
-           match toType t with
-           | .ok ty => assign e inner (some ty) v
-           | .throw => (e, .throw)
-           | .panic => (e, .panic)) (fun e' => assignItems e' ps rt vs) := rfl
-
-theorem assignItems_other (e : Env) (p : Pat) (ps : List Pat) (rt : Option Ty) (v : Val) (vs : List Val)
-    (h : isSplatItem p = false) :
-    assignItems e (p :: ps) rt (v :: vs) =
-      stepItems (assign e p rt v) (fun e' => assignItems e' ps rt vs) := by
-  cases p with
-  | anno q t => cases q <;> first | rfl | simp [isSplatItem] at h
-  | splat q => simp [isSplatItem] at h
-  | _ => rfl
-
-
 mutual
 theorem assign_noIdents_env (e : Env) : ∀ (p : Pat) (rt : Option Ty) (v : Val),
     noIdents p = true → (assign e p rt v).1 = e
@@ -754,114 +273,6 @@ theorem assignItems_noIdents_env (e : Env) : ∀ (ps : List Pat) (rt : Option Ty
         rw [assignItems_other _ _ _ _ _ _ (by simp [isSplatItem])]
         exact key _ (assign_noIdents_env e _ rt v h.1)
 end
-
-theorem seq_view_cases (v : Val) :
-    (∃ items, patLen v = some items.length ∧ seqItems v = some items) ∨ (patLen v = none ∧ seqItems v = none) := by
-  cases v <;> simp [patLen, seqLen, seqItems]
-
-theorem specAssignItems_nil (e : Env) (rt : Option Ty) : specAssignItems e [] rt [] = some e := rfl
-theorem specAssignItems_nil_cons (e : Env) (rt : Option Ty) (v : Val) (vs : List Val) :
-    specAssignItems e [] rt (v :: vs) = none := rfl
-theorem specAssignItems_cons_nil (e : Env) (p : Pat) (ps : List Pat) (rt : Option Ty) :
-    specAssignItems e (p :: ps) rt [] = none := rfl
-
-theorem specAssignItems_splat (e : Env) (inner : Pat) (ps : List Pat) (rt : Option Ty) (v : Val) (vs : List Val) :
-    specAssignItems e (.splat inner :: ps) rt (v :: vs) =
-      (specAssign e inner rt v).bind (fun e' => specAssignItems e' ps rt vs) := by
-  show (match specAssign e inner rt v with | some e' => specAssignItems e' ps rt vs | none => none) = _
-  cases specAssign e inner rt v <;> rfl
-
-theorem specAssignItems_annoSplat (e : Env) (inner : Pat) (ann : Option Val) (ps : List Pat) (rt : Option Ty) (v : Val) (vs : List Val) :
-    specAssignItems e (.anno (.splat inner) ann :: ps) rt (v :: vs) =
-      (match ann with
-         | none => specAssign e inner (some .any) v
-         | some t =>
-           match toType t with
-           | .ok ty => specAssign e inner (some ty) v
-           | _ => none).bind (fun e' => specAssignItems e' ps rt vs) := by
-  cases ann with
-  | none =>
-    show (match specAssign e inner (some .any) v with | some e' => specAssignItems e' ps rt vs | none => none) = _
-    cases specAssign e inner (some .any) v <;> rfl
-  | some t =>
-    have h1 : specAssignItems e (.anno (.splat inner) (some t) :: ps) rt (v :: vs) =
-        (match (match toType t with | .ok T' => specAssign e inner (some T') v | _ => none) with
-          | some e' => specAssignItems e' ps rt vs | none => none) := rfl
-    rw [h1]
-    simp only []
-    generalize toType t = tt
-    cases tt with
-    | ok ty => simp only []; cases specAssign e inner (some ty) v <;> rfl
-    | throw => rfl
-    | panic => rfl
-
-theorem specAssignItems_other (e : Env) (p : Pat) (ps : List Pat) (rt : Option Ty) (v : Val) (vs : List Val)
-    (h : isSplatItem p = false) :
-    specAssignItems e (p :: ps) rt (v :: vs) =
-      (specAssign e p rt v).bind (fun e' => specAssignItems e' ps rt vs) := by
-  have key : ∀ q, (match specAssign e q rt v with | some e' => specAssignItems e' ps rt vs | none => none)
-      = (specAssign e q rt v).bind (fun e' => specAssignItems e' ps rt vs) := by
-    intro q; cases specAssign e q rt v <;> rfl
-  cases p with
-  | anno q t => cases q <;> first | exact key _ | simp [isSplatItem] at h
-  | splat q => simp [isSplatItem] at h
-  | _ => exact key _
-
-theorem arith_no_panic (op : Rat → Rat → Rat) (a b : Val) : arith op a b ≠ .panic := by
-  unfold arith; split <;> simp
-
-theorem negVal_no_panic (v : Val) : negVal v ≠ .panic := by
-  cases v <;> simp [negVal]
-
-theorem remNum_no_panic (r a : Val) (h : isNonzero a = true) : remNum r a ≠ .panic := by
-  unfold remNum
-  split
-  · next x y hx hy =>
-    simp [isNonzero, hy] at h
-    simp [h]
-  · simp
-
-theorem divFloorNum_no_panic (r a : Val) (h : isNonzero a = true) : divFloorNum r a ≠ .panic := by
-  unfold divFloorNum
-  split
-  · next x y hx hy =>
-    simp [isNonzero, hy] at h
-    simp [h]
-  · simp
-
-theorem uncons_no_panic (v : Val) : uncons v ≠ .panic := by
-  unfold uncons; split <;> simp
-
-theorem unsnoc_no_panic (v : Val) : unsnoc v ≠ .panic := by
-  unfold unsnoc; split <;> (try split) <;> simp
-
-theorem ncmp_no_panic (a b : Val) : ncmp a b ≠ .panic := by
-  unfold ncmp
-  split
-  · split
-    · split <;> simp
-    · simp
-    · simp
-  · split <;> simp
-
-theorem accept_no_panic (op : CmpOp) (a b : Val) : op.accept a b ≠ .panic := by
-  cases op <;> simp [CmpOp.accept] <;> exact Out.map_ne_panic _ _ (ncmp_no_panic a b)
-
-theorem cmpChain_no_panic (ops : List CmpOp) : ∀ vs : List Val, cmpChain ops vs ≠ .panic := by
-  induction ops with
-  | nil => intro vs; simp [cmpChain]
-  | cons op ops ih =>
-    intro vs
-    match vs with
-    | [] => simp [cmpChain]
-    | [_] => simp [cmpChain]
-    | a :: b :: rest =>
-      simp only [cmpChain]
-      split
-      · exact ih _
-      · next r hr => 
-        intro hp
-        exact accept_no_panic op a b hp
 
 theorem destructure_no_panic (f : Bi) (v : Val) (known : List (Option Val)) :
     destructure f v known ≠ .panic := by
@@ -1595,5 +1006,24 @@ example :
     (assign [[]] (.seq [.or (.lit (.int 1)) (.lit (.int 2)), .splat (.ident 0 [])] false) (some .any)
       (.list [.int 2, .int 7, .int 8])).2 = .ok () := by
   constructor <;> decide
+
+/-! ## §10 stated, not proved -/
+
+/-- the executable arrangement is exactly the relation `Arranged` of `Spec/Match.lean` -/
+def specArrange_iff_Arranged_statement : Prop :=
+  ∀ (ps : List Pat) (items arr : List Val), specArrange ps items = some arr ↔ Arranged ps items arr
+
+/-- in declaring contexts the transactional reference is the relational matcher followed by the
+declarations: `specAssign e p (some T) v = some e' ↔ ∃ β, Matches p T v β ∧ declareAll e β = some e'` -/
+def specAssign_iff_Matches_statement : Prop :=
+  ∀ (e e' : Env) (p : Pat) (T : Ty) (v : Val), orClean p = true →
+    (specAssign e p (some T) v = some e' ↔ ∃ β, Matches p T v β ∧ declareAll e β = some e')
+
+/-- each destructuring builtin computes exactly the inverse image `Inverts` of its constructor
+(soundness for every builtin and completeness for `+`, `.+`, `+.` are proved in `C12Inverse`) -/
+def destructure_iff_Inverts_statement : Prop :=
+  ∀ (f : Bi) (known : List (Option Val)) (v : Val) (parts : List Val),
+    exactNum v ≠ none ∨ isSeqVal v = true →
+    (destructure f v known = .ok parts ↔ Inverts f known v parts)
 
 end Noulith.C12
